@@ -125,17 +125,30 @@ UnmetDep(o, p) ==
   \E j \in DOMAIN p.after :
      \/ ~ HasPr(o, p.after[j])
      \/ PrById(o, p.after[j]).state # "MERGED"
+(* held back: a `wait` comment, an unmet dependency, declined, or not handled by Bert-E.        *)
+(* (A pull request whose changes are already merged is "finished": nothing more can be merged   *)
+(* from it; for it only the "no new integration branch / queue entry" half is asserted.)         *)
 Held(o, p) == \/ p.wait
               \/ UnmetDep(o, p)
-              \/ p.state # "OPEN"
+              \/ p.state = "DECLINED"
               \/ ~ p.handled
+Finished(o, p) == Held(o, p) \/ p.state = "MERGED"
 IntegRefs(o, p) == {r \in Refs(o) : (r.kind = "w" /\ r.src = p.src) \/
                                      (r.kind = "qw" /\ r.pr = p.id)}
-HeldUntouched(prev, o, anc, srcTips) ==
-  \A p \in UserPrs(o) :
-    (HasPr(prev, p.id) /\ Held(prev, PrById(prev, p.id)) /\ Held(o, p)) =>
-       /\ {r.n : r \in IntegRefs(o, p)} \subseteq {r.n : r \in IntegRefs(prev, PrById(prev, p.id))}
-       /\ \A d \in Moved(prev, o) : p \notin MergedBy(prev, o, anc, srcTips, d)
+(* b is the observation at the begin of the running job: a hold counts when it was in place when   *)
+(* the evaluation started (a hold placed by somebody while the job runs cannot be seen by it).      *)
+HeldIntegrated(b, prev, o) ==    \* finished / held PRs that nevertheless got a new w/ or q/w branch
+  {p \in UserPrs(o) : HasPr(prev, p.id) /\ HasPr(b, p.id) /\ Finished(b, PrById(b, p.id)) /\ Finished(o, p) /\
+       ~ ({r.n : r \in IntegRefs(o, p)} \subseteq {r.n : r \in IntegRefs(prev, PrById(prev, p.id))})}
+HeldMerged(b, prev, o, anc, srcTips) ==   \* held PRs whose changes nevertheless landed on a destination
+  {p \in UserPrs(o) : HasPr(prev, p.id) /\ HasPr(b, p.id) /\ Held(b, PrById(b, p.id)) /\ Held(o, p) /\
+       \E d \in Moved(prev, o) : p \in MergedBy(prev, o, anc, srcTips, d)}
+WasQueued(b, p) == \E r \in Refs(b) : r.kind = "qw" /\ r.pr = p.id
+HeldClauses(b, prev, o, anc, srcTips) ==
+  LET M == HeldMerged(b, prev, o, anc, srcTips)
+  IN (IF HeldIntegrated(b, prev, o) # {} THEN {"C12.held.integrated"} ELSE {})
+     \cup (IF \E p \in M : ~ WasQueued(b, p) THEN {"C12.held.merged"} ELSE {})
+     \cup (IF \E p \in M : WasQueued(b, p) THEN {"C12.held.merged_after_queued"} ELSE {})
 NoCommentOnForeign(o) ==
   \A p \in UserPrs(o) : ~ p.handled => \A j \in DOMAIN p.msgs : p.msgs[j].au # "robot"
 
